@@ -120,7 +120,7 @@ def gen_cases(ck, tier):
     if os.path.isdir(corpus):
         for fn in sorted(os.listdir(corpus)):
             for l in open(os.path.join(corpus, fn)):
-                l = l.strip()
+                l = l.rstrip("\n")
                 if l and not l.startswith("#"):
                     t = l.split("\t")
                     cases.append(Case(t[0].encode("latin-1").decode("unicode_escape").encode("latin-1"),
